@@ -174,18 +174,10 @@ __CPROVER_ensures(VF_SHA2_W(ctx, 0) == VF_SHA2_IV(0) && VF_SHA2_W(ctx, 1) == VF_
 ;
 
 #define VF_SHA2_T0(ctx)		((size_t)(__CPROVER_old((ctx)->count) & (VF_BLK - 1)))
-/* VF_CTX_OWNED: the harness owns the context object and stores the two size fields as
- * constants (so that the verifier's constant propagation resolves the block-size dependent
- * loop bounds and lengths); otherwise the contract allocates it */
-#ifdef VF_CTX_OWNED
-#define VF_SHA2_CTX_REQ(ctx)	__CPROVER_requires(__CPROVER_w_ok(ctx, sizeof(sha2_ctx_t)))
-#else
-#define VF_SHA2_CTX_REQ(ctx)	__CPROVER_requires(__CPROVER_is_fresh(ctx, sizeof(sha2_ctx_t)))
-#endif
 
 static inline void
 sha2_update(sha2_ctx_p ctx, const uint8_t *data, size_t data_size)
-VF_SHA2_CTX_REQ(ctx)
+__CPROVER_requires(__CPROVER_is_fresh(ctx, sizeof(sha2_ctx_t)))
 __CPROVER_requires(ctx->block_size == VF_BLK && ctx->hash_size == VF_HS)
 #ifdef VF_TAIL
 __CPROVER_requires((ctx->count & (VF_BLK - 1)) == VF_TAIL)
@@ -223,7 +215,7 @@ __CPROVER_ensures(VF_FED(VF_SHA2_T0(ctx), data_size, VF_BLK) != 0 ==> VF_SHA2_HA
 #endif
 static inline void
 sha2_final(sha2_ctx_p ctx, uint8_t *digest)
-VF_SHA2_CTX_REQ(ctx)
+__CPROVER_requires(__CPROVER_is_fresh(ctx, sizeof(sha2_ctx_t)))
 __CPROVER_requires(ctx->block_size == VF_BLK && ctx->hash_size == VF_HS)
 #ifdef VF_TAIL
 __CPROVER_requires((ctx->count & (VF_BLK - 1)) == VF_TAIL)
